@@ -11,6 +11,7 @@ var props = map[string]propCfg{
 	"C13": defCfg(),
 	"C17": defCfg(),
 	"C18": defCfg(),
+	"C20": defCfg(),
 }
 
 const chainRule = "plans are drawn by rapid from one seed per worker process: 1-3 nodes, knobs (utxo / block / ext-utxo cache sizes, slide window, nofee, map-order seed) and up to 24 (quick) / 40+ (thorough) steps of the listed operation mix with selectors resolved against live state; distinct = distinct event-log digests (every operation, result, block / tx id); "
@@ -24,5 +25,6 @@ var rules = map[string]string{
 	"C06": chainRule + "each scenario (3-14 steps on node 0, a second node produces competing blocks) is run uninterrupted with the write journal on, then EVERY prefix of its write units (all boundaries when the scenario issued <= 64 units, else all boundaries of the last three steps plus a sample) is restarted and checked (ledger battery, C01 fresh replay, C02 sums, Walk to tip, one more block and transfer); evaluations counts scenarios, faults_fired.crash-restart counts crash images; non-trivial = more than three crash images were restarted and synced",
 	"C13": chainRule + "non-trivial = a block with pool transactions was mined and replayed on a fresh node",
 	"C17": chainRule + "non-trivial = a walk failed (refused at the irreversible height or otherwise) or undid a block",
+	"C20": "plans: 1-4 messages built by the real NewMessage (all payload kinds: nil, empty, small, incompressible, large compressible, block; options), corruption faults on the encoded payload (ALL single-bit flips for payloads <= 48 bytes, seeded bursts <= 32 bits otherwise), 1-4 subscribers (handler / channel, chain and sender filters), 1-3 concurrent tasks of Register / UnRegister / Dispatch ops under the cooperative scheduler with up to 4 planned preemptions at statement granularity, then sequential repeats across clock steps; non-trivial = a history with preemptions was checked for linearizability and at least one dispatch delivered; distinct = distinct event-log digests",
 	"C18": chainRule + "non-trivial = more than two snapshot comparisons below the tip ran",
 }
